@@ -4,6 +4,13 @@ From Coq Require Import Lia.
 From QV Require Import Rt.Prelude Rt.Amount Rt.Quantity Macro.Defs Gen.Prefixes Gen.Catalogue
   Gen.Kernels Macro.Inst Proofs.Laws Proofs.Kernel Proofs.Instances.
 
+(** equal up to a case analysis on the conditions: robust against swapped branches / negated conditions *)
+Ltac by_cases :=
+  repeat first [ reflexivity
+               | progress cbn [negb andb orb]
+               | match goal with |- context [Nat.eqb ?a ?b] => destruct (Nat.eqb a b) eqn:? end
+               | match goal with |- context [if ?b then _ else _] => destruct b eqn:? end ].
+
 Section C10.
 Context (am : Amount).
 Variable g : gen_def SIPrefix.
@@ -16,12 +23,12 @@ Hypothesis Hp : gd_path g = PNoRef.
 
 Lemma noref_eq_spec (x y : Qt B) :
   q_eq F x y = Ok (Nat.eqb (q_unit B x) (q_unit B y) && a_eqb am (q_amount B x) (q_amount B y)).
-Proof. cbn [q_eq full_of_gen]. rewrite Hp. reflexivity. Qed.
+Proof. cbn [q_eq full_of_gen]. rewrite Hp. first [reflexivity | unfold tmpl_PartialEq_Qty_Self_PNoRef, Quantity_eq; by_cases]. Qed.
 
 Lemma noref_cmp_spec (x y : Qt B) :
   q_partial_cmp F x y =
   Ok (if Nat.eqb (q_unit B x) (q_unit B y) then a_cmp am (q_amount B x) (q_amount B y) else None).
-Proof. cbn [q_partial_cmp full_of_gen]. rewrite Hp. reflexivity. Qed.
+Proof. cbn [q_partial_cmp full_of_gen]. rewrite Hp. first [reflexivity | unfold tmpl_PartialOrd_Qty_none_PNoRef, Quantity_partial_cmp; by_cases]. Qed.
 
 Lemma noref_arith_diff (x y : Qt B) : q_unit B x <> q_unit B y ->
   q_add F x y = Panic PUnitMismatch /\ q_sub F x y = Panic PUnitMismatch /\ q_div F x y = Panic PUnitMismatch.
